@@ -885,6 +885,926 @@ fn explore_chains(run: &Run, max_calls: &AtomicU64, watch: &Watch) {
     run.sample(chains[13].to_json());
 }
 
+// ---------------------------------------------------------------------------------------------
+// document-level reference model: reads the public `objects` / `trailer` maps only (none of
+// lopdf's lookup helpers), so it can describe a document after any edit
+
+/// the documented number of reference hops lopdf follows (Document::DEREF_LIMIT)
+const DEREF: usize = 128;
+
+/// Follow objects that are bare references, at most DEREF hops. Returns the last id and the value.
+fn resolve<'a>(doc: &'a Document, mut o: &'a Object) -> Result<(Option<ObjectId>, &'a Object), String> {
+    let mut id = None;
+    let mut hops = 0usize;
+    while let Object::Reference(r) = o {
+        hops += 1;
+        if hops > DEREF {
+            return Err(format!("more than {} reference hops", DEREF));
+        }
+        o = doc.objects.get(r).ok_or_else(|| format!("reference {} {} R to a missing object", r.0, r.1))?;
+        id = Some(*r);
+    }
+    Ok((id, o))
+}
+
+/// The id a yielded id stands for: the object itself, or the end of the chain of bare references stored under it.
+fn resolve_id(doc: &Document, id: ObjectId) -> ObjectId {
+    match doc.objects.get(&id) {
+        Some(o @ Object::Reference(_)) => resolve(doc, o).ok().and_then(|r| r.0).unwrap_or(id),
+        _ => id,
+    }
+}
+
+/// Leaf pages of the document's page tree, depth-first, left to right (ids of the Page
+/// dictionaries). Err = the tree is not well-formed in the sense of the valid families.
+fn model_pages(doc: &Document) -> Result<Vec<ObjectId>, String> {
+    fn walk(doc: &Document, entry: &Object, out: &mut Vec<ObjectId>, depth: usize) -> Result<(), String> {
+        if depth > 2000 {
+            return Err("page tree deeper than 2000 levels (cycle?)".into());
+        }
+        if !matches!(entry, Object::Reference(_)) {
+            return Err("kid entry that is not a reference".into());
+        }
+        let (id, node) = resolve(doc, entry)?;
+        let Object::Dictionary(d) = node else { return Err("page tree node that is not a dictionary".into()) };
+        match d.get(b"Type") {
+            Ok(Object::Name(n)) if n == b"Page" => {
+                out.push(id.unwrap());
+                Ok(())
+            }
+            Ok(Object::Name(n)) if n == b"Pages" => {
+                let kids = d.get(b"Kids").map_err(|_| "Pages node without Kids".to_string())?;
+                let (_, arr) = resolve(doc, kids)?;
+                let Object::Array(a) = arr else { return Err("Kids is not an array".into()) };
+                for k in a {
+                    walk(doc, k, out, depth + 1)?;
+                }
+                Ok(())
+            }
+            _ => Err("page tree node without Type Page / Pages".into()),
+        }
+    }
+    let root = doc.trailer.get(b"Root").map_err(|_| "trailer without Root".to_string())?;
+    let (_, cat) = resolve(doc, root)?;
+    let Object::Dictionary(cat) = cat else { return Err("catalog is not a dictionary".into()) };
+    let pages = cat.get(b"Pages").map_err(|_| "catalog without Pages".to_string())?;
+    let mut out = vec![];
+    walk(doc, pages, &mut out, 0)?;
+    Ok(out)
+}
+
+/// A document assembled from scratch out of the same objects and trailer (no history).
+fn fresh_copy(doc: &Document) -> Document {
+    let mut f = Document::with_version("1.5");
+    for (id, o) in &doc.objects {
+        f.objects.insert(*id, o.clone());
+    }
+    for (k, v) in doc.trailer.iter() {
+        f.trailer.set(k.clone(), v.clone());
+    }
+    f.max_id = doc.max_id;
+    f
+}
+
+/// check_valid on `doc` plus agreement of get_pages() with a history-free copy of the same document.
+fn check_now(doc: &Document, want: &[ObjectId], what: &str, max_calls: &AtomicU64) -> Result<(), String> {
+    check_valid(doc, want, max_calls).map_err(|e| format!("{}: {}", what, e))?;
+    let fresh = fresh_copy(doc);
+    let (a, b) = (util::guard(|| doc.get_pages()), util::guard(|| fresh.get_pages()));
+    if a != b {
+        return Err(format!("{}: get_pages() is {:?} but a document assembled from the same objects and trailer gives {:?}", what, a, b));
+    }
+    Ok(())
+}
+
+// ---------------------------------------------------------------------------------------------
+// history family: the SAME Document value is enumerated, edited through its public fields, and
+// enumerated again
+
+struct Spec {
+    t: Tree,
+    rev: bool,
+    b: Built,
+    want: Vec<ObjectId>,
+}
+
+fn all_specs(max_nodes: usize) -> Vec<Spec> {
+    let mut out = vec![];
+    for n in 1..=max_nodes {
+        for parent in shapes(n) {
+            let opts = options(&parent);
+            for v in 0..n_variants(&opts) {
+                let t = Tree::from_parents(&parent, variant(&opts, v));
+                for rev in [false, true] {
+                    let b = build(&t, rev);
+                    let want = expected_pages(&t, &b);
+                    out.push(Spec { t: t.clone(), rev, b, want });
+                }
+            }
+        }
+    }
+    out
+}
+
+/// Turn `doc` into `target` entry by entry through the public fields.
+fn morph_entrywise(doc: &mut Document, target: &Document) {
+    let gone: Vec<ObjectId> = doc.objects.keys().filter(|k| !target.objects.contains_key(k)).cloned().collect();
+    for id in gone {
+        doc.objects.remove(&id);
+    }
+    for (id, o) in &target.objects {
+        match doc.objects.get_mut(id) {
+            Some(slot) => *slot = o.clone(),
+            None => {
+                doc.objects.insert(*id, o.clone());
+            }
+        }
+    }
+    for (k, v) in target.trailer.iter() {
+        doc.trailer.set(k.clone(), v.clone());
+    }
+    doc.max_id = target.max_id;
+}
+
+/// Turn `doc` into `target` by assigning the public fields wholesale.
+fn morph_assign(doc: &mut Document, target: &Document) {
+    doc.objects = target.objects.clone();
+    doc.trailer = target.trailer.clone();
+    doc.max_id = target.max_id;
+}
+
+/// Turn `doc` into `target` with the document's own mutating methods where one exists.
+fn morph_methods(doc: &mut Document, target: &Document) {
+    let gone: Vec<ObjectId> = doc.objects.keys().filter(|k| !target.objects.contains_key(k)).cloned().collect();
+    for id in gone {
+        doc.delete_object(id);
+    }
+    for (id, o) in &target.objects {
+        doc.set_object(*id, o.clone());
+    }
+    for (k, v) in target.trailer.iter() {
+        doc.trailer.set(k.clone(), v.clone());
+    }
+    doc.max_id = target.max_id;
+}
+
+const HISTORY_MODES: [&str; 8] = ["entrywise", "assign", "iter_only_before", "clone_then_edit_clone", "edit_then_clone", "there_and_back", "methods_then_fields", "get_pages_twice_then_edit"];
+
+fn run_history(a: &Spec, b: &Spec, mode: &str, mc: &AtomicU64) -> Result<(), String> {
+    let (da, db) = (&a.b.doc, &b.b.doc);
+    let mut doc = da.clone();
+    let before = "tree A before any edit";
+    let after = "after doc.objects / doc.trailer were edited into tree B";
+    match mode {
+        "entrywise" => {
+            check_now(&doc, &a.want, before, mc)?;
+            morph_entrywise(&mut doc, db);
+            check_now(&doc, &b.want, after, mc)
+        }
+        "assign" => {
+            check_now(&doc, &a.want, before, mc)?;
+            morph_assign(&mut doc, db);
+            check_now(&doc, &b.want, after, mc)
+        }
+        "iter_only_before" => {
+            let d = drive(&doc)?;
+            if d.yielded != a.want {
+                return Err(format!("{}: page_iter yields {}", before, ids_str(&d.yielded)));
+            }
+            morph_entrywise(&mut doc, db);
+            check_now(&doc, &b.want, after, mc)
+        }
+        "clone_then_edit_clone" => {
+            check_now(&doc, &a.want, before, mc)?;
+            let mut c = doc.clone();
+            morph_entrywise(&mut c, db);
+            check_now(&c, &b.want, "clone of the enumerated document, edited into tree B", mc)?;
+            check_now(&doc, &a.want, "the original after its clone was edited", mc)
+        }
+        "edit_then_clone" => {
+            check_now(&doc, &a.want, before, mc)?;
+            morph_entrywise(&mut doc, db);
+            let c = doc.clone();
+            check_now(&c, &b.want, "clone taken after the edit into tree B", mc)?;
+            check_now(&doc, &b.want, after, mc)
+        }
+        "there_and_back" => {
+            check_now(&doc, &a.want, before, mc)?;
+            morph_entrywise(&mut doc, db);
+            check_now(&doc, &b.want, after, mc)?;
+            morph_assign(&mut doc, da);
+            check_now(&doc, &a.want, "after editing back into tree A", mc)
+        }
+        "methods_then_fields" => {
+            check_now(&doc, &a.want, before, mc)?;
+            morph_methods(&mut doc, db);
+            check_now(&doc, &b.want, "after delete_object / set_object turned the document into tree B", mc)?;
+            morph_entrywise(&mut doc, da);
+            check_now(&doc, &a.want, "after doc.objects / doc.trailer were edited back into tree A", mc)
+        }
+        "get_pages_twice_then_edit" => {
+            let first = util::guard(|| doc.get_pages())?;
+            let second = util::guard(|| doc.get_pages())?;
+            if first != second {
+                return Err(format!("two get_pages() calls on the unchanged document differ: {:?} vs {:?}", first, second));
+            }
+            morph_assign(&mut doc, db);
+            check_now(&doc, &b.want, after, mc)
+        }
+        _ => machinery("unknown history mode"),
+    }
+}
+
+fn history_case(a: &Spec, b: &Spec, mode: &str) -> Value {
+    json!({"kind": "history", "a": a.t.to_json(), "a_rev": a.rev, "b": b.t.to_json(), "b_rev": b.rev, "mode": mode})
+}
+
+const HISTORY_EXPECTED: &str = "every enumeration describes the page tree the document has at that moment: page_iter() = depth-first left-to-right Page leaves, get_pages() = that list numbered 1..n, equal to what a document assembled from the same objects gives";
+
+fn explore_history(run: &Run, max_calls: &AtomicU64, watch: &Watch) {
+    // all ordered pairs with every mode up to `full`; up to `wide` with the first two modes only
+    let (full, wide) = if run.thorough { (4, 5) } else { (3, 4) };
+    let specs = all_specs(wide);
+    let n_full = all_specs(full).len();
+    run.set("history_trees", json!({"all_modes_nodes": full, "all_modes_documents": n_full, "two_modes_nodes": wide, "two_modes_documents": specs.len()}));
+    let sampled = AtomicU64::new(0);
+    util::par_for(specs.len(), |i| {
+        let a = &specs[i];
+        let (mut seqs, mut nontrivial) = (0u64, 0u64);
+        for (j, b) in specs.iter().enumerate() {
+            let modes: &[&str] = if i < n_full && j < n_full { &HISTORY_MODES } else { &HISTORY_MODES[..2] };
+            let case0 = history_case(a, b, "(any)");
+            watch.guarded(&case0, || {
+                for mode in modes {
+                    seqs += 1;
+                    if a.want != b.want {
+                        nontrivial += 1;
+                    }
+                    if let Err(e) = run_history(a, b, mode, max_calls) {
+                        run.fail(None, with_doc(history_case(a, b, mode), &b.b.doc), &e, HISTORY_EXPECTED);
+                    }
+                }
+            });
+            if a.t.len() == 4 && b.t.len() == 4 && a.want.len() == 2 && b.want.len() == 3 && a.rev && !b.rev && sampled.fetch_add(1, Ordering::Relaxed) < 1 {
+                run.sample(history_case(a, b, "there_and_back"));
+            }
+        }
+        run.eval(seqs * 4);
+        run.nontrivial(nontrivial);
+        run.add("history_sequences", seqs);
+        run.add_traces(seqs);
+    });
+}
+
+// --- single edits of one document through the public fields ------------------------------------
+
+fn fresh_id(doc: &mut Document) -> ObjectId {
+    doc.max_id += 1;
+    (doc.max_id, 0)
+}
+
+/// Every single edit of a valid tree that leaves a valid tree, as descriptors.
+fn edits(t: &Tree) -> Vec<Value> {
+    let mut out = vec![];
+    let n = t.len();
+    let in_subtree = |x: usize, root: usize| x == root || t.ancestors(x).contains(&root);
+    for i in (0..n).filter(|i| t.is_pages(*i)) {
+        let l = t.kids[i].len();
+        for pos in 0..=l {
+            out.push(json!({"e": "add_page", "node": i, "pos": pos}));
+        }
+        for pos in 0..l {
+            out.push(json!({"e": "remove_kid", "node": i, "pos": pos}));
+            for j in (0..n).filter(|j| t.is_pages(*j) && !in_subtree(*j, t.kids[i][pos])) {
+                if j == i && pos + 1 == l {
+                    continue; // moving the last kid to the end changes nothing
+                }
+                out.push(json!({"e": "move_kid", "node": i, "pos": pos, "to": j}));
+            }
+        }
+        if l >= 2 {
+            out.push(json!({"e": "reverse_kids", "node": i}));
+        }
+        if i >= 1 {
+            out.push(json!({"e": "catalog_pages_to", "node": i}));
+        }
+        out.push(json!({"e": "new_catalog_for", "node": i}));
+    }
+    out
+}
+
+/// Set every reachable Pages node's Count to its number of leaf pages (public fields only).
+fn fix_counts(doc: &mut Document, id: ObjectId, depth: usize) -> i64 {
+    if depth > 64 {
+        machinery("fix_counts: tree too deep");
+    }
+    let (is_page, kids): (bool, Vec<ObjectId>) = match doc.objects.get(&id) {
+        Some(Object::Dictionary(d)) => {
+            let is_page = matches!(d.get(b"Type"), Ok(Object::Name(n)) if n == b"Page");
+            let kids = match d.get(b"Kids") {
+                Ok(Object::Array(a)) => a.clone(),
+                Ok(Object::Reference(r)) => match doc.objects.get(r) {
+                    Some(Object::Array(a)) => a.clone(),
+                    _ => vec![],
+                },
+                _ => vec![],
+            };
+            (is_page, kids.iter().filter_map(|k| k.as_reference().ok()).collect())
+        }
+        _ => machinery("fix_counts: node is not a dictionary"),
+    };
+    if is_page {
+        return 1;
+    }
+    let c: i64 = kids.iter().map(|k| fix_counts(doc, *k, depth + 1)).sum();
+    dict_mut(doc, id).set("Count", Object::Integer(c));
+    c
+}
+
+fn apply_edit(t: &Tree, b: &mut Built, e: &Value) {
+    let i = e["node"].as_u64().unwrap() as usize;
+    let pos = e["pos"].as_u64().map(|x| x as usize);
+    let mut new_root = b.node[0];
+    match e["e"].as_str().unwrap_or("") {
+        "add_page" => {
+            let id = fresh_id(&mut b.doc);
+            let mut d = Dictionary::new();
+            d.set("Type", name("Page"));
+            d.set("Parent", Object::Reference(b.node[i]));
+            b.doc.objects.insert(id, Object::Dictionary(d));
+            kids_mut(b, i).insert(pos.unwrap(), Object::Reference(id));
+        }
+        "remove_kid" => {
+            let kid = t.kids[i][pos.unwrap()];
+            kids_mut(b, i).remove(pos.unwrap());
+            if t.kids[kid].is_empty() {
+                b.doc.objects.remove(&b.node[kid]);
+                if let Some(a) = b.arr[kid] {
+                    b.doc.objects.remove(&a);
+                }
+            }
+        }
+        "move_kid" => {
+            let to = e["to"].as_u64().unwrap() as usize;
+            let kid = t.kids[i][pos.unwrap()];
+            let entry = kids_mut(b, i).remove(pos.unwrap());
+            kids_mut(b, to).push(entry);
+            let parent = Object::Reference(b.node[to]);
+            dict_mut(&mut b.doc, b.node[kid]).set("Parent", parent);
+        }
+        "reverse_kids" => kids_mut(b, i).reverse(),
+        "catalog_pages_to" => {
+            let target = Object::Reference(b.node[i]);
+            dict_mut(&mut b.doc, b.cat).set("Pages", target);
+            dict_mut(&mut b.doc, b.node[i]).remove(b"Parent");
+            new_root = b.node[i];
+        }
+        "new_catalog_for" => {
+            let id = fresh_id(&mut b.doc);
+            let mut c = Dictionary::new();
+            c.set("Type", name("Catalog"));
+            c.set("Pages", Object::Reference(b.node[i]));
+            b.doc.objects.insert(id, Object::Dictionary(c));
+            b.doc.trailer.set("Root", Object::Reference(id));
+            dict_mut(&mut b.doc, b.node[i]).remove(b"Parent");
+            new_root = b.node[i];
+        }
+        _ => machinery("unknown edit"),
+    }
+    fix_counts(&mut b.doc, new_root, 0);
+}
+
+const EDIT_MODES: [&str; 3] = ["in_place", "edit_a_clone", "iter_only_before"];
+
+fn run_edit(t: &Tree, rev: bool, e: &Value, mode: &str, mc: &AtomicU64) -> Result<(), String> {
+    let mut b = build(t, rev);
+    let want_a = expected_pages(t, &b);
+    match model_pages(&b.doc) {
+        Ok(m) if m == want_a => {}
+        other => machinery(&format!("document-level model {:?} disagrees with the tree-level model {:?}", other, want_a)),
+    }
+    let original = if mode == "edit_a_clone" {
+        check_now(&b.doc, &want_a, "before the edit", mc)?;
+        let c = b.doc.clone();
+        Some(std::mem::replace(&mut b.doc, c))
+    } else if mode == "iter_only_before" {
+        let d = drive(&b.doc)?;
+        if d.yielded != want_a {
+            return Err(format!("before the edit: page_iter yields {}", ids_str(&d.yielded)));
+        }
+        None
+    } else {
+        check_now(&b.doc, &want_a, "before the edit", mc)?;
+        None
+    };
+    apply_edit(t, &mut b, e);
+    let want_b = model_pages(&b.doc).unwrap_or_else(|m| machinery(&format!("edit {} left a tree the model rejects: {}", e, m)));
+    check_now(&b.doc, &want_b, "after the edit through doc.objects / doc.trailer", mc)?;
+    if let Some(o) = original {
+        check_now(&o, &want_a, "the original after its clone was edited", mc)?;
+    }
+    Ok(())
+}
+
+fn edit_case(t: &Tree, rev: bool, e: &Value, mode: &str) -> Value {
+    json!({"kind": "edit", "tree": t.to_json(), "rev": rev, "edit": e, "mode": mode})
+}
+
+// --- mutating methods after an enumeration ------------------------------------------------------
+
+const METHOD_OPS: [&str; 16] = [
+    "renumber_objects", "renumber_objects_with_7", "renumber_twice", "delete_pages_first", "delete_pages_last", "delete_pages_all", "delete_object_first_page",
+    "prune_objects", "add_object", "new_object_id", "compress", "set_object_reversed_root_kids", "get_object_mut_reversed_root_kids",
+    "clone_only", "add_page_by_methods", "renumber_then_field_edit",
+];
+
+fn reversed_root_kids(b: &Built) -> (ObjectId, Object) {
+    match b.arr[0] {
+        Some(a) => match b.doc.objects.get(&a) {
+            Some(Object::Array(v)) => (a, Object::Array(v.iter().rev().cloned().collect())),
+            _ => machinery("indirect root Kids missing"),
+        },
+        None => match b.doc.objects.get(&b.node[0]) {
+            Some(Object::Dictionary(d)) => {
+                let mut d = d.clone();
+                if let Ok(Object::Array(v)) = d.get_mut(b"Kids") {
+                    v.reverse();
+                }
+                (b.node[0], Object::Dictionary(d))
+            }
+            _ => machinery("root missing"),
+        },
+    }
+}
+
+fn run_method(t: &Tree, rev: bool, op: &str, mc: &AtomicU64) -> Result<(), String> {
+    let mut b = build(t, rev);
+    let want_a = expected_pages(t, &b);
+    check_now(&b.doc, &want_a, "before the call", mc)?;
+    let n_pages = want_a.len() as u32;
+    let doc = &mut b.doc;
+    let mut same_count = None;
+    let r = util::guard(|| match op {
+        "renumber_objects" => {
+            doc.renumber_objects();
+            same_count = Some(n_pages);
+        }
+        "renumber_objects_with_7" => {
+            doc.renumber_objects_with(7);
+            same_count = Some(n_pages);
+        }
+        "renumber_twice" => {
+            doc.renumber_objects_with(20);
+            let _ = doc.get_pages();
+            doc.renumber_objects_with(2);
+            same_count = Some(n_pages);
+        }
+        "delete_pages_first" => doc.delete_pages(&[1]),
+        "delete_pages_last" => doc.delete_pages(&[n_pages]),
+        "delete_pages_all" => doc.delete_pages(&(1..=n_pages).collect::<Vec<u32>>()),
+        "delete_object_first_page" => {
+            if let Some(p) = want_a.first() {
+                doc.delete_object(*p);
+            }
+        }
+        "prune_objects" => {
+            doc.prune_objects();
+            same_count = Some(n_pages);
+        }
+        "add_object" => {
+            let mut d = Dictionary::new();
+            d.set("Type", name("Page"));
+            doc.add_object(Object::Dictionary(d));
+            same_count = Some(n_pages);
+        }
+        "new_object_id" => {
+            doc.new_object_id();
+            same_count = Some(n_pages);
+        }
+        "compress" => {
+            doc.compress();
+            same_count = Some(n_pages);
+        }
+        "set_object_reversed_root_kids" | "get_object_mut_reversed_root_kids" => {}
+        "clone_only" => same_count = Some(n_pages),
+        "add_page_by_methods" | "renumber_then_field_edit" => {}
+        _ => machinery("unknown method op"),
+    });
+    r.map_err(|e| format!("{}: {}", op, e))?;
+    match op {
+        "set_object_reversed_root_kids" => {
+            let (id, o) = reversed_root_kids(&b);
+            b.doc.set_object(id, o);
+        }
+        "get_object_mut_reversed_root_kids" => {
+            let (id, o) = reversed_root_kids(&b);
+            match util::guard(|| b.doc.get_object_mut(id).map(|slot| *slot = o)) {
+                Ok(Ok(())) => {}
+                other => return Err(format!("get_object_mut on an existing object: {:?}", other.map(|r| r.map_err(|e| e.to_string())))),
+            }
+        }
+        "add_page_by_methods" => {
+            let mut d = Dictionary::new();
+            d.set("Type", name("Page"));
+            d.set("Parent", Object::Reference(b.node[0]));
+            let id = b.doc.add_object(Object::Dictionary(d));
+            kids_mut(&mut b, 0).insert(0, Object::Reference(id));
+            let root = b.node[0];
+            fix_counts(&mut b.doc, root, 0);
+        }
+        "renumber_then_field_edit" => {
+            b.doc.renumber_objects_with(3);
+            let after = model_pages(&b.doc).map_err(|e| format!("after renumber_objects_with(3): {}", e))?;
+            check_now(&b.doc, &after, "after renumber_objects_with(3)", mc)?;
+            // drop the first kid of the root through the public fields
+            let root = match b.doc.catalog().ok().and_then(|c| c.get(b"Pages").ok()).and_then(|p| p.as_reference().ok()) {
+                Some(r) => r,
+                None => return Err("catalog lost its Pages reference under renumbering".into()),
+            };
+            let arr_id = match b.doc.objects.get(&root) {
+                Some(Object::Dictionary(d)) => match d.get(b"Kids") {
+                    Ok(Object::Reference(r)) => Some(*r),
+                    _ => None,
+                },
+                _ => None,
+            };
+            let kids = match arr_id {
+                Some(a) => match b.doc.objects.get_mut(&a) {
+                    Some(Object::Array(v)) => Some(v),
+                    _ => None,
+                },
+                None => match b.doc.objects.get_mut(&root) {
+                    Some(Object::Dictionary(d)) => match d.get_mut(b"Kids") {
+                        Ok(Object::Array(v)) => Some(v),
+                        _ => None,
+                    },
+                    _ => None,
+                },
+            };
+            match kids {
+                Some(v) if !v.is_empty() => {
+                    v.remove(0);
+                }
+                Some(_) => {}
+                None => return Err("root Kids not found after renumbering".into()),
+            }
+            fix_counts(&mut b.doc, root, 0);
+        }
+        _ => {}
+    }
+    let target = if op == "clone_only" { b.doc.clone() } else { b.doc };
+    // the document is now what lopdf's own methods made of it: a tree the model rejects is a failure of those methods
+    let want_b = model_pages(&target).map_err(|e| format!("after {}: the page tree is no longer well-formed: {}", op, e))?;
+    if let Some(n) = same_count {
+        if want_b.len() as u32 != n {
+            return Err(format!("after {}: the page tree has {} leaf pages, had {}", op, want_b.len(), n));
+        }
+    }
+    check_now(&target, &want_b, &format!("after {}", op), mc)
+}
+
+fn method_case(t: &Tree, rev: bool, op: &str) -> Value {
+    json!({"kind": "method", "tree": t.to_json(), "rev": rev, "op": op})
+}
+
+fn explore_edits(run: &Run, max_calls: &AtomicU64, watch: &Watch) {
+    let nodes = if run.thorough { 6 } else { 5 };
+    let mut work: Vec<Vec<Option<usize>>> = vec![];
+    for n in (1..=nodes).rev() {
+        work.extend(shapes(n));
+    }
+    let sampled = AtomicU64::new(0);
+    util::par_for(work.len(), |w| {
+        let parent = &work[w];
+        let opts = options(parent);
+        let (mut n_edit, mut n_method, mut nontrivial) = (0u64, 0u64, 0u64);
+        for v in 0..n_variants(&opts) {
+            let t = Tree::from_parents(parent, variant(&opts, v));
+            let es = edits(&t);
+            for rev in [false, true] {
+                for e in &es {
+                    for mode in EDIT_MODES {
+                        let case = edit_case(&t, rev, e, mode);
+                        n_edit += 1;
+                        nontrivial += 1;
+                        if let Err(msg) = watch.guarded(&case, || run_edit(&t, rev, e, mode, max_calls)) {
+                            run.fail(None, case.clone(), &msg, HISTORY_EXPECTED);
+                        }
+                        if t.len() == 5 && e["e"] == "move_kid" && rev && mode == "edit_a_clone" && sampled.fetch_add(1, Ordering::Relaxed) < 1 {
+                            run.sample(case);
+                        }
+                    }
+                }
+                for op in METHOD_OPS {
+                    let case = method_case(&t, rev, op);
+                    n_method += 1;
+                    if t.has_intermediate() {
+                        nontrivial += 1;
+                    }
+                    if let Err(msg) = watch.guarded(&case, || run_method(&t, rev, op, max_calls)) {
+                        run.fail(None, case, &msg, HISTORY_EXPECTED);
+                    }
+                }
+            }
+        }
+        run.eval((n_edit + n_method) * 4);
+        run.nontrivial(nontrivial);
+        run.add("single_edit_sequences", n_edit);
+        run.add("method_sequences", n_method);
+        run.add_traces(n_edit + n_method);
+    });
+}
+
+// ---------------------------------------------------------------------------------------------
+// reference-chain family: a link of the page tree is reached through a chain of indirect
+// references (objects whose whole value is a reference)
+
+/// hop counts with an exact verdict (lopdf follows up to DEREF hops) and beyond (outside the domain)
+const HOPS: [usize; 10] = [0, 1, 2, 3, 16, 64, 126, 127, 128, 129];
+const HOPS_MORE: [usize; 8] = [4, 32, 100, 125, 130, 131, 200, 300];
+
+#[derive(Clone, Debug, PartialEq)]
+enum Site {
+    /// the Kids value of Pages node i reaches its array after `hops` hops (0 = direct array)
+    Kids(usize),
+    /// the entry for node i in its parent's Kids reaches the node's dictionary after `hops` extra hops
+    KidEntry(usize),
+    CatalogPages,
+    TrailerRoot,
+    Count(usize),
+    Parent(usize),
+    /// every Kids value, the catalog's Pages and the trailer's Root at once
+    AllLinks,
+    /// every kid entry at once
+    AllEntries,
+}
+
+impl Site {
+    fn to_json(&self) -> Value {
+        match self {
+            Site::Kids(i) => json!({"site": "kids", "node": i}),
+            Site::KidEntry(i) => json!({"site": "kid_entry", "node": i}),
+            Site::CatalogPages => json!({"site": "catalog_pages"}),
+            Site::TrailerRoot => json!({"site": "trailer_root"}),
+            Site::Count(i) => json!({"site": "count", "node": i}),
+            Site::Parent(i) => json!({"site": "parent", "node": i}),
+            Site::AllLinks => json!({"site": "all_links"}),
+            Site::AllEntries => json!({"site": "all_entries"}),
+        }
+    }
+    fn from_json(v: &Value) -> Site {
+        let i = v["node"].as_u64().unwrap_or(0) as usize;
+        match v["site"].as_str().unwrap_or("") {
+            "kids" => Site::Kids(i),
+            "kid_entry" => Site::KidEntry(i),
+            "catalog_pages" => Site::CatalogPages,
+            "trailer_root" => Site::TrailerRoot,
+            "count" => Site::Count(i),
+            "parent" => Site::Parent(i),
+            "all_links" => Site::AllLinks,
+            "all_entries" => Site::AllEntries,
+            _ => machinery("unknown chain site"),
+        }
+    }
+    /// ids yielded for this site may be the head of a chain that ends at the Page dictionary
+    fn entries_chained(&self) -> bool {
+        matches!(self, Site::KidEntry(_) | Site::AllEntries)
+    }
+}
+
+fn sites(t: &Tree) -> Vec<Site> {
+    let mut v = vec![Site::CatalogPages, Site::TrailerRoot, Site::AllLinks];
+    if t.len() > 1 {
+        v.push(Site::AllEntries);
+    }
+    for i in 0..t.len() {
+        if t.is_pages(i) {
+            v.push(Site::Kids(i));
+            v.push(Site::Count(i));
+        }
+        if i >= 1 {
+            v.push(Site::KidEntry(i));
+            v.push(Site::Parent(i));
+        }
+    }
+    v
+}
+
+/// `extra` new objects, each a bare reference to the previous one, ending at `target`; returns the head.
+fn add_chain(doc: &mut Document, target: ObjectId, extra: usize) -> ObjectId {
+    let mut head = target;
+    for _ in 0..extra {
+        let id = fresh_id(doc);
+        doc.objects.insert(id, Object::Reference(head));
+        head = id;
+    }
+    head
+}
+
+fn apply_chain(t: &Tree, b: &mut Built, site: &Site, hops: usize) {
+    match site {
+        Site::Kids(i) => {
+            let i = *i;
+            if hops == 0 {
+                if let Some(a) = b.arr[i].take() {
+                    let arr = b.doc.objects.remove(&a).unwrap_or_else(|| machinery("indirect Kids array missing"));
+                    dict_mut(&mut b.doc, b.node[i]).set("Kids", arr);
+                }
+            } else {
+                let a = match b.arr[i] {
+                    Some(a) => a,
+                    None => {
+                        let arr = dict_mut(&mut b.doc, b.node[i]).remove(b"Kids").unwrap_or_else(|| machinery("direct Kids missing"));
+                        let a = fresh_id(&mut b.doc);
+                        b.doc.objects.insert(a, arr);
+                        b.arr[i] = Some(a);
+                        a
+                    }
+                };
+                let head = add_chain(&mut b.doc, a, hops - 1);
+                dict_mut(&mut b.doc, b.node[i]).set("Kids", Object::Reference(head));
+            }
+        }
+        Site::KidEntry(i) => {
+            let p = t.parent[*i].unwrap_or_else(|| machinery("kid_entry on the root"));
+            let pos = t.kids[p].iter().position(|k| k == i).unwrap();
+            let head = add_chain(&mut b.doc, b.node[*i], hops);
+            kids_mut(b, p)[pos] = Object::Reference(head);
+        }
+        Site::CatalogPages => {
+            let head = add_chain(&mut b.doc, b.node[0], hops);
+            dict_mut(&mut b.doc, b.cat).set("Pages", Object::Reference(head));
+        }
+        Site::TrailerRoot => {
+            let head = add_chain(&mut b.doc, b.cat, hops);
+            b.doc.trailer.set("Root", Object::Reference(head));
+        }
+        Site::Count(i) => {
+            if hops >= 1 {
+                let c = fresh_id(&mut b.doc);
+                b.doc.objects.insert(c, Object::Integer(t.count(*i)));
+                let head = add_chain(&mut b.doc, c, hops - 1);
+                dict_mut(&mut b.doc, b.node[*i]).set("Count", Object::Reference(head));
+            }
+        }
+        Site::Parent(i) => {
+            let p = t.parent[*i].unwrap_or_else(|| machinery("parent on the root"));
+            let head = add_chain(&mut b.doc, b.node[p], hops);
+            dict_mut(&mut b.doc, b.node[*i]).set("Parent", Object::Reference(head));
+        }
+        Site::AllLinks => {
+            for i in (0..t.len()).filter(|i| t.is_pages(*i)) {
+                apply_chain(t, b, &Site::Kids(i), hops);
+            }
+            apply_chain(t, b, &Site::CatalogPages, hops);
+            apply_chain(t, b, &Site::TrailerRoot, hops);
+        }
+        Site::AllEntries => {
+            for i in 1..t.len() {
+                apply_chain(t, b, &Site::KidEntry(i), hops);
+            }
+        }
+    }
+}
+
+/// Like check_valid, with yielded ids read through chains of bare references when `chained`
+/// (an id whose object is such a chain denotes the object at its end).
+fn check_valid_chained(doc: &Document, want: &[ObjectId], chained: bool, max_calls: &AtomicU64) -> Result<(), String> {
+    if !chained {
+        return check_valid(doc, want, max_calls);
+    }
+    let d = drive(doc).map_err(|e| format!("page_iter: {}", e))?;
+    max_calls.fetch_max(d.calls as u64, Ordering::Relaxed);
+    if !d.finished || d.calls > doc.objects.len() + 1 {
+        return Err(format!("page_iter did not finish within objects.len()+1 = {} calls of next()", doc.objects.len() + 1));
+    }
+    let got: Vec<ObjectId> = d.yielded.iter().map(|id| resolve_id(doc, *id)).collect();
+    if got != want {
+        return Err(format!("page_iter yields {} which denote {}, depth-first left-to-right leaf pages are {}", ids_str(&d.yielded), ids_str(&got), ids_str(want)));
+    }
+    let m = util::guard(|| doc.get_pages()).map_err(|e| format!("get_pages: {}", e))?;
+    let keys: Vec<u32> = m.keys().cloned().collect();
+    let vals: Vec<ObjectId> = m.values().map(|id| resolve_id(doc, *id)).collect();
+    if keys != (1..=want.len() as u32).collect::<Vec<u32>>() || vals != want {
+        return Err(format!("get_pages is {:?}, expected (ids denoting) the leaf pages numbered 1..{}: {}", m, want.len(), ids_str(want)));
+    }
+    Ok(())
+}
+
+/// Termination and type safety only (used beyond the dereference limit).
+fn check_lenient_chained(doc: &Document, max_calls: &AtomicU64) -> Result<usize, String> {
+    let d = drive(doc).map_err(|e| format!("page_iter: {}", e))?;
+    max_calls.fetch_max(d.calls as u64, Ordering::Relaxed);
+    if !d.finished || d.calls > doc.objects.len() + 1 {
+        return Err(format!("page_iter did not finish within objects.len()+1 = {} calls of next()", doc.objects.len() + 1));
+    }
+    for id in &d.yielded {
+        if !is_page_object(doc, resolve_id(doc, *id)) {
+            return Err(format!("page_iter yields {} {} R which does not denote a dictionary of /Type /Page", id.0, id.1));
+        }
+    }
+    util::guard(|| doc.get_pages()).map_err(|e| format!("get_pages: {}", e))?;
+    Ok(d.yielded.len())
+}
+
+/// Ok(true) = exact verdict given, Ok(false) = beyond the limit (termination / type safety only).
+fn run_refchain(t: &Tree, rev: bool, site: &Site, hops: usize, mc: &AtomicU64) -> Result<bool, String> {
+    let mut b = build(t, rev);
+    let want = expected_pages(t, &b);
+    apply_chain(t, &mut b, site, hops);
+    if hops <= DEREF {
+        match model_pages(&b.doc) {
+            Ok(m) if m == want => {}
+            other => machinery(&format!("document-level model {:?} disagrees with the tree-level model {:?} ({:?}, {} hops)", other, want, site, hops)),
+        }
+        check_valid_chained(&b.doc, &want, site.entries_chained(), mc)?;
+        // the same answer from a clone
+        let c = b.doc.clone();
+        check_valid_chained(&c, &want, site.entries_chained(), mc).map_err(|e| format!("clone of the document: {}", e))?;
+        Ok(true)
+    } else {
+        check_lenient_chained(&b.doc, mc)?;
+        Ok(false)
+    }
+}
+
+fn refchain_case(t: &Tree, rev: bool, site: &Site, hops: usize) -> Value {
+    json!({"kind": "refchain", "tree": t.to_json(), "rev": rev, "link": site.to_json(), "hops": hops})
+}
+
+const REFCHAIN_EXPECTED: &str = "the same enumeration as with direct links: page_iter() = (ids denoting) the depth-first left-to-right Page leaves, get_pages() numbered 1..n, for every chain of at most 128 reference hops; beyond that only termination and type safety";
+
+fn explore_refchains(run: &Run, max_calls: &AtomicU64, watch: &Watch) {
+    let nodes = if run.thorough { 5 } else { 4 };
+    let mut hops: Vec<usize> = HOPS.to_vec();
+    if run.thorough {
+        hops.extend(HOPS_MORE);
+        hops.sort();
+    }
+    let mut work: Vec<Vec<Option<usize>>> = vec![];
+    for n in (1..=nodes).rev() {
+        work.extend(shapes(n));
+    }
+    // the limit as observed on this build, per kind of link (a note for the reader, not a verdict)
+    {
+        let t = Tree::from_parents(&[None, Some(0), Some(1), Some(0)], vec![Kind::Pages, Kind::Pages, Kind::Page, Kind::Page]);
+        let mut seen = serde_json::Map::new();
+        for site in [Site::Kids(0), Site::Kids(1), Site::KidEntry(1), Site::KidEntry(2), Site::CatalogPages, Site::TrailerRoot] {
+            let mut last_ok = None;
+            for h in 0..=140usize {
+                let mut b = build(&t, false);
+                let want = expected_pages(&t, &b);
+                apply_chain(&t, &mut b, &site, h);
+                let dummy = AtomicU64::new(0);
+                if check_valid_chained(&b.doc, &want, site.entries_chained(), &dummy).is_ok() {
+                    last_ok = Some(h);
+                }
+            }
+            seen.insert(site.to_json().to_string(), json!(last_ok));
+        }
+        run.set("largest_hop_count_with_full_enumeration_observed", Value::Object(seen));
+    }
+    let sampled = AtomicU64::new(0);
+    util::par_for(work.len(), |w| {
+        let parent = &work[w];
+        let opts = options(parent);
+        let (mut exact, mut beyond) = (0u64, 0u64);
+        let mut nontrivial = Vec::<u64>::new();
+        for v in 0..n_variants(&opts) {
+            let t = Tree::from_parents(parent, variant(&opts, v));
+            for rev in [false, true] {
+                for site in sites(&t) {
+                    for &h in &hops {
+                        if h == 0 && !matches!(site, Site::Kids(_)) {
+                            continue; // 0 hops is the plain document of the valid family
+                        }
+                        let case = refchain_case(&t, rev, &site, h);
+                        match watch.guarded(&case, || run_refchain(&t, rev, &site, h, max_calls)) {
+                            Ok(true) => exact += 1,
+                            Ok(false) => beyond += 1,
+                            Err(e) => run.fail(None, case.clone(), &e, REFCHAIN_EXPECTED),
+                        }
+                        if h >= 2 {
+                            nontrivial.push(run_hash(&case));
+                        }
+                        if t.len() == 4 && h == 128 && site == Site::Kids(1) && rev && sampled.fetch_add(1, Ordering::Relaxed) < 1 {
+                            run.sample(case);
+                        }
+                    }
+                }
+            }
+        }
+        run.eval((exact + beyond) * 2 + exact * 2);
+        nontrivial.iter().for_each(|h| run.nontrivial_hash(*h));
+        run.add("refchain_exact", exact);
+        run.add("refchain_beyond_deref_limit_no_verdict", beyond);
+    });
+}
+
+fn run_hash(case: &Value) -> u64 {
+    vharness::run::fnv(case.to_string().as_bytes())
+}
+
 fn explore_malformed(run: &Run, b: &Bounds, max_calls: &AtomicU64, watch: &Watch) {
     let mut work: Vec<Vec<Option<usize>>> = vec![];
     for n in (1..=b.mutated_nodes).rev() {
@@ -1036,6 +1956,40 @@ fn replay(run: &Run, path: &std::path::Path) -> ! {
                 }
             }
         }
+        Some("history") => {
+            let spec = |tk: &str, rk: &str| {
+                let t = Tree::from_json(&case[tk]);
+                let rev = case[rk].as_bool().unwrap_or(false);
+                let b = build(&t, rev);
+                let want = expected_pages(&t, &b);
+                Spec { t, rev, b, want }
+            };
+            let (a, b) = (spec("a", "a_rev"), spec("b", "b_rev"));
+            let mode = case["mode"].as_str().unwrap_or("").to_string();
+            say(&format!("history {}", mode), run_history(&a, &b, &mode, &dummy).map(|_| format!("tree A pages {}, tree B pages {}: every enumeration agrees", ids_str(&a.want), ids_str(&b.want))));
+        }
+        Some("edit") => {
+            let t = Tree::from_json(&case["tree"]);
+            let rev = case["rev"].as_bool().unwrap_or(false);
+            let mode = case["mode"].as_str().unwrap_or("").to_string();
+            say(&format!("single edit {} ({})", case["edit"], mode), run_edit(&t, rev, &case["edit"], &mode, &dummy).map(|_| "every enumeration agrees".to_string()));
+        }
+        Some("method") => {
+            let t = Tree::from_json(&case["tree"]);
+            let rev = case["rev"].as_bool().unwrap_or(false);
+            let op = case["op"].as_str().unwrap_or("").to_string();
+            say(&format!("enumeration, {}, enumeration", op), run_method(&t, rev, &op, &dummy).map(|_| "every enumeration agrees".to_string()));
+        }
+        Some("refchain") => {
+            let t = Tree::from_json(&case["tree"]);
+            let rev = case["rev"].as_bool().unwrap_or(false);
+            let site = Site::from_json(&case["link"]);
+            let hops = case["hops"].as_u64().unwrap_or(0) as usize;
+            say(
+                &format!("link {} behind {} hops", case["link"], hops),
+                run_refchain(&t, rev, &site, hops, &dummy).map(|exact| if exact { "same enumeration as with direct links".to_string() } else { "beyond the dereference limit: terminates, yields only pages (no verdict on the enumeration)".to_string() }),
+            );
+        }
         _ => machinery("unknown replay kind"),
     }
     run.finish_replay(failed)
@@ -1080,6 +2034,12 @@ fn main() {
         explore_chains(&run, &max_calls, &watch);
         run.set("wall_after_chains_s", json!((run.elapsed() * 10.0).round() / 10.0));
         explore_malformed(&run, &b, &max_calls, &watch);
+        run.set("wall_after_malformed_s", json!((run.elapsed() * 10.0).round() / 10.0));
+        explore_history(&run, &max_calls, &watch);
+        run.set("wall_after_history_s", json!((run.elapsed() * 10.0).round() / 10.0));
+        explore_edits(&run, &max_calls, &watch);
+        run.set("wall_after_edits_s", json!((run.elapsed() * 10.0).round() / 10.0));
+        explore_refchains(&run, &max_calls, &watch);
         watch.done.store(true, Ordering::SeqCst);
     });
     run.set("max_next_calls", json!(max_calls.load(Ordering::Relaxed)));
